@@ -17,6 +17,8 @@ INNERS = {
     "Inner2": [("k", ("sc", "Int64")), ("x", ("arr", "Int32", (None,))), ("y", ("arr", "Int32", (None,)))],
     "Mid": [("z", ("sc", "Int16")), ("inn", ("hyb", "Inner"))],  # a nested class that nests another one (three levels)
     "MidR": [("k", ("sc", "Int64")), ("r", ("ref", "Inner"))],  # a nested class that HOLDS A REFERENCE
+    # a static class whose FIRST field is a nested object: the object and that part have the same offset
+    "WrapS": [("first", ("hyb", "InnerS")), ("y", ("sc", "Int64"))],
 }
 SPLITS = {"outer": (2, 3), "same": (2, 3), "other": (4, 1)}  # equal total sizes (Int32 items, slot rounding); "other" splits the room differently: refused
 OUTERS = {
@@ -37,6 +39,8 @@ OUTERS = {
     "O14": [("mid", ("hyb", "MidR")), ("t", ("sc", "Float64"))],
     # a UNION reference field (members Inner, InnerS) bound to dressed objects
     "O15": [("u", ("ref", "Inner", "union")), ("k", ("sc", "Int64"))],
+    # a union reference whose members are a class and a class that nests an object of the first one at its own offset
+    "O16": [("u", ("ref", "InnerS", "union", "WrapS")), ("k", ("sc", "Int64"))],
 }
 RENAMES = ["none", "first", "all"]
 
@@ -88,7 +92,8 @@ def get_classes(oname, rename):
         if spec[0] == "hyb":
             return inner[spec[1]]
         if spec[0] == "ref" and len(spec) > 2:
-            return type("Un" + spec[1], (xo.UnionRef,), {"_reftypes": [inner[spec[1]]._XoStruct, inner["InnerS"]._XoStruct]})
+            other = spec[3] if len(spec) > 3 else "InnerS"
+            return type("Un" + spec[1] + other, (xo.UnionRef,), {"_reftypes": [inner[spec[1]]._XoStruct, inner[other]._XoStruct]})
         if spec[0] == "ref":
             return xo.Ref(inner[spec[1]])
 
@@ -220,10 +225,23 @@ class World:
         for fn, fs in specs:
             if fs[0] == "ref" and m[fn] is not None:
                 src = m[fn]
-                m[fn] = ("dup", pycopy.deepcopy(self.objs[src[1]]["m"] if src[0] == "id" else self.objs[src[1]]["m"][src[2]] if src[0] == "nested" else src[1]))
+                tcn = self.target_class(dict(m=m), fn, fs)
+                m[fn] = ("dup", pycopy.deepcopy(self.objs[src[1]]["m"] if src[0] == "id" else self.objs[src[1]]["m"][src[2]] if src[0] == "nested" else src[1]), tcn)
             elif fs[0] == "hyb":
                 self.dup_refs(fs[1], m[fn])
         return m
+
+    def target_class(self, o, fn, fs):
+        """class of what the field denotes according to the model"""
+        mv = o["m"][fn]
+        if fs[0] == "hyb" or mv is None:
+            return fs[1]
+        if mv[0] == "dup":
+            return mv[2] if len(mv) > 2 else fs[1]
+        if mv[0] == "id":
+            return self.objs[mv[1]]["cname"]
+        holder = self.objs[mv[1]]["cname"]
+        return dict(OUTERS.get(holder) or INNERS[holder])[mv[2]][1]
 
     def referenced(self, sid):
         return any(isinstance(v, tuple) and v[:2] == ("id", sid) for o in self.objs.values() for v in o["m"].values())
@@ -262,6 +280,9 @@ class World:
                     for fn2, fs2 in OUTERS[self.oname]:
                         if fs2 == ("hyb", fs[1]) and oid == self.outer:
                             ev.append(("ref-bind", oid, fn, "nested:" + fn2))
+                    if len(fs) > 3 and oid == self.outer:
+                        ev.append(("ref-bind", oid, fn, "member2"))
+                        ev.append(("ref-bind", oid, fn, "member2-first"))
                     if o["m"][fn] is not None:
                         ev.append(("through", oid, fn))
         if not self.copies:
@@ -382,6 +403,19 @@ class World:
                 setattr(o["h"], self.pyname(oid, fn), None)
                 o["m"][fn] = None
                 return None
+            if where in ("member2", "member2-first"):
+                # the other member of the union (an object of the same buffer) / the part nested at its very offset
+                wid = self.helpers[(fs[3], "same")]
+                wh = self.objs[wid]["h"]
+                if where == "member2":
+                    setattr(o["h"], self.pyname(oid, fn), wh)
+                    o["m"][fn] = ("id", wid)
+                else:
+                    pf = INNERS[fs[3]][0][0]
+                    setattr(o["h"], self.pyname(oid, fn), getattr(wh, self.ipy(fs[3], pf)))
+                    o["m"][fn] = ("nested", wid, pf)
+                self.objs[wid]["movable"] = False
+                return None
             if where.startswith("nested:"):
                 fn2 = where.split(":")[1]
                 setattr(o["h"], self.pyname(oid, fn), getattr(o["h"], self.pyname(oid, fn2)))
@@ -404,9 +438,13 @@ class World:
             o = self.objs[oid]
             fs = field_specs(o["cname"])[fn]
             child = getattr(o["h"], self.pyname(oid, fn))
+            tcn = self.target_class(o, fn, fs)
+            if tcn != fs[1]:
+                return None  # (writes through the other member are not part of the menu)
             first = INNERS[fs[1]][0][0]
             val = 500 + n
-            setattr(child, self.ipy(fs[1], first), val)
+            # (a reference read through a COPY of the holder is a bare struct: xo names)
+            setattr(child, self.ipy(fs[1], first) if hasattr(child, "_xobject") else first, val)
             if fs[0] == "hyb":
                 o["m"][fn][first] = val
             elif o["m"][fn][0] == "dup":
@@ -463,7 +501,7 @@ class World:
             c = part.copy(_buffer=self.B)
             mv = o["m"][fn]
             m = pycopy.deepcopy(mv if fs[0] == "hyb" else self.objs[mv[1]]["m"] if mv[0] == "id" else self.objs[mv[1]]["m"][mv[2]] if mv[0] == "nested" else mv[1])
-            self.extra = self.add(fs[1], c, m)
+            self.extra = self.add(self.target_class(o, fn, fs), c, m)
         elif kind == "move-extra":
             x = self.objs[self.extra]
             dest = self.F if x["h"]._buffer is self.B else self.B
@@ -477,7 +515,7 @@ class World:
                 raise AssertionError("move of an object that contains references accepted")
         elif kind == "mutate-src":
             s = self.objs[self.helpers[ev[1]]]
-            first = INNERS[ev[1][0]][0][0]
+            first = [a for a, b in INNERS[ev[1][0]] if b[0] == "sc"][0]
             s["m"][first] = 900 + n
             setattr(s["h"], self.ipy(ev[1][0], first), 900 + n)
         else:
@@ -564,9 +602,15 @@ def check_hybrid(w, cname, h, m, pyname, out, res, label):
                 tm = w.objs[mv[1]]["m"][mv[2]]
             else:
                 tm = mv[1]
+            tcn = w.target_class(dict(m=m), fn, fs)
+            if type(xv).__name__ != tcn + "Data":
+                out.append(("C18.value", "reference-target-type", "%s.%s: the buffer's reference denotes a %s, the object bound is a %s" % (label, fn, type(xv).__name__, tcn)))
+                continue
             # value of the target through the raw xobject
-            for tfn, tfs in INNERS[fs[1]]:
+            for tfn, tfs in INNERS[tcn]:
                 tv = getattr(xv, tfn)
+                if tfs[0] == "hyb":
+                    continue
                 if tfs[0] == "sc" and tv != tm[tfn]:
                     out.append(("C18.value", "reference-target-value", "%s.%s.%s: %r, model %r" % (label, fn, tfn, tv, tm[tfn])))
                 if tfs[0] == "arr" and not val_eq([tv[i] for i in range(len(tm[tfn]))], tm[tfn]):
